@@ -3784,6 +3784,13 @@ static size_t ZSTDv07_decompressFrame(ZSTDv07_DCtx* dctx,
         case bt_end :
             /* end of frame */
             if (remainingSize) return ERROR(srcSize_wrong);
+            if (dctx->fParams.checksumFlag) {   /* same verification as the streaming decoder (ZSTDds_decodeBlockHeader) */
+                U64 const h64 = XXH64_digest(&dctx->xxhState);
+                U32 const h32 = (U32)(h64>>11) & ((1<<22)-1);
+                const BYTE* const hp = ip - ZSTDv07_blockHeaderSize;
+                U32 const check32 = hp[2] + (hp[1] << 8) + ((hp[0] & 0x3F) << 16);
+                if (check32 != h32) return ERROR(checksum_wrong);
+            }
             decodedSize = 0;
             break;
         default:
